@@ -55,7 +55,20 @@ fn case(r: &mut Rng, res: &mut CaseResult) {
     let eof_same_read = client_close && r.bool();
     let arriving_after_close = r.usize(0, 3);
     let write_max = *r.pick(&[usize::MAX, usize::MAX, 1, 7, 100]);
-    let (conn, h) = session::open_with(Reflex::default(), session::default_opts(), ConnectionTuning::default(), |h| {
+    // local tuning: default, or small water marks / channel bounds so that back-pressure
+    // (channels parked, messages waiting in the in-memory queues) is in play at the close
+    let small_tuning = client_close && r.chance(1, 2);
+    let tuning = if small_tuning {
+        let high = *r.pick(&[0usize, 1 << 10, 4 << 10, 64 << 10]);
+        ConnectionTuning::default()
+            .mem_channel_bound(*r.pick(&[1usize, 4, 16]))
+            .buffered_writes_high_water(high)
+            .buffered_writes_low_water(*r.pick(&[0, high / 2]))
+    } else {
+        ConnectionTuning::default()
+    };
+    let backlog_at_close = small_tuning && r.bool();
+    let (conn, h) = session::open_with(Reflex::default(), session::default_opts(), tuning, |h| {
         h.with(|st| st.write_max = write_max);
     });
     let mut conn = match conn {
@@ -142,7 +155,7 @@ fn case(r: &mut Rng, res: &mut CaseResult) {
             ch.blocked_rpc = true;
         }
     }
-    let mut desc = json!({"client_close": client_close, "channels": nch, "consumers": chans.iter().map(|c| c.cons.len()).collect::<Vec<_>>(), "blocked_rpcs": chans.iter().filter(|c| c.blocked_rpc).count(), "write_max": if write_max == usize::MAX { 0 } else { write_max }, "failpoint_delay_us": fp});
+    let mut desc = json!({"client_close": client_close, "small_tuning": small_tuning, "backlog_at_close": backlog_at_close && client_close, "channels": nch, "consumers": chans.iter().map(|c| c.cons.len()).collect::<Vec<_>>(), "blocked_rpcs": chans.iter().filter(|c| c.blocked_rpc).count(), "write_max": if write_max == usize::MAX { 0 } else { write_max }, "failpoint_delay_us": fp});
     let io_thread = h.peek(|st| st.io_thread);
     let expected_term: CMsg;
     let want_first_err: String;
@@ -152,15 +165,23 @@ fn case(r: &mut Rng, res: &mut CaseResult) {
         // ---------------- client-initiated close
         expected_term = CMsg::ClientClosedConnection;
         want_first_err = "ClientClosedConnection".to_string();
-        // publishers racing with the close
+        // publishers racing with the close; with a backlog the transport accepts nothing
+        // until the close has been requested, so their messages pile up in the output
+        // buffer and (above the high-water mark) in the channels' in-memory queues
+        if backlog_at_close {
+            h.with(|st| st.budget = 0);
+        }
         for ch in chans.iter_mut() {
-            if !ch.blocked_rpc && r.chance(1, 2) {
-                let k = r.usize(1, 12);
+            if !ch.blocked_rpc && (r.chance(1, 2) || backlog_at_close) {
+                let k = if backlog_at_close { r.usize(10, 60) } else { r.usize(1, 12) };
                 for _ in 0..k {
-                    ch.actor.send(Cmd::Publish(r.usize(0, 2000)));
+                    ch.actor.send(Cmd::Publish(r.usize(0, if backlog_at_close { 4000 } else { 2000 })));
                 }
                 ch.fired_publishes = k;
             }
+        }
+        if backlog_at_close {
+            std::thread::sleep(Duration::from_millis(r.range(2, 10)));
         }
         // the server: deliveries still arriving after it got Close, then CloseOk (+ EOF at once)
         let mut late: Vec<Vec<u8>> = Vec::new();
@@ -198,8 +219,20 @@ fn case(r: &mut Rng, res: &mut CaseResult) {
                 false
             }));
         });
-        drop(own);
+        if backlog_at_close {
+            // the scenario's own channel is closed by Channel::drop, which needs the
+            // transport: leak it instead
+            std::mem::forget(own);
+        } else {
+            drop(own);
+        }
         let t = run::spawn("close", move || conn.close());
+        if backlog_at_close {
+            // the transport drains only after the close has been requested
+            std::thread::sleep(Duration::from_millis(r.range(1, 6)));
+            h.grant(usize::MAX);
+            res.obs("closes_with_backlog", 1);
+        }
         if slow_server {
             if !h.wait(W, |st| st.reflex.got_conn_close) {
                 res.violate("close_hangs", "Connection.Close never reached the server".to_string());
@@ -262,7 +295,9 @@ fn case(r: &mut Rng, res: &mut CaseResult) {
             // flush, stall the transport, queue id-tagged operations, prove they are queued
             let _ = own.qos(0, 1, false);
             let base = h.out_len();
-            h.with(|st| st.budget = 0);
+            // stall at once, or after a few more bytes (i.e. in the middle of a frame)
+            let midframe = r.usize(0, 40);
+            h.with(|st| st.budget = if r.bool() { 0 } else { midframe });
             for i in 0..r.usize(1, 10) {
                 let op = match r.below(3) {
                     0 => Op::DeclareNowait { id: format!("before{}", i) },
@@ -274,8 +309,11 @@ fn case(r: &mut Rng, res: &mut CaseResult) {
                 }
             }
             expected_bytes = queued_len(own_id, &own_issued);
-            // wait until the I/O thread reports that much queued
-            let ok = wait_outbuf(io_thread, expected_bytes, W);
+            // wait until the I/O thread reports that much queued (minus what the
+            // transport still accepted before it stalled)
+            h.wait(Duration::from_millis(50), |st| st.budget == 0);
+            let trickled = h.out_len() - base;
+            let ok = wait_outbuf(io_thread, expected_bytes.saturating_sub(trickled), W);
             if !ok {
                 res.inconclusive(format!("could not establish that {} bytes were queued before the close (transport stalled at {})", expected_bytes, base));
             }
